@@ -28,6 +28,35 @@ add('C05', 'runtime monitoring: differential oracle (independent segment-assignm
     'DESIGN.md section 3, C05')
 
 
+add('C01', 'runtime monitoring: constructor outcomes and request-time call failures of generated configurations judged by an '
+           'independent availability model; exhaustive small cores + seeded random stacks',
+    'About 86 000 configurations per quick run (three exhaustively enumerated cores over {a,b} with every parameter kind, plus '
+    'random stacks of 0-4 middlewares on one or two application levels in seven callable forms) are constructed with the real '
+    'Application/Route; accept/reject and the exception type are compared with a model written from the statement, and every '
+    'accepted configuration is exercised (matching request twice, 404, 405) under a re-raising error handler so that a '
+    'framework call with a missing or unexpected argument escapes to the probe.',
+    'DESIGN.md section 3, C01')
+add('C02', 'runtime monitoring: spy functions record the identity of every argument they receive; compared with the reference '
+           "onion's expected source per parameter; PYTHONHASHSEED sweep; generated chain source captured",
+    'Every function of every accepted configuration logs what it was actually passed (resources, defaults and provided values are '
+    'unique objects compared by identity; the request by its environ); two requests with different tokens and the catch-all route '
+    'are compared with the expectation computed by the reference interpreter. Shards run under 8 (quick) / 20 (thorough) hash '
+    'seeds because the chain text is assembled from sets.',
+    'DESIGN.md section 3, C02')
+add('C03', 'runtime monitoring: enter/leave/raise traces of spy middlewares compared with a reference onion interpreter under '
+           'one scripted deviation per case',
+    'Random stacks over 1-3 nested application levels with shared unique / non-unique / non-reorderable middleware types; one '
+    'function per case raises before/after next, short-circuits, swallows or replaces the result; the observed event sequence '
+    'and the final outcome at the WSGI boundary must equal the reference trace.',
+    'DESIGN.md section 3, C03')
+add('C04', 'runtime monitoring: constructor outcome of valid random hosts with exactly one planted conflict / reserved-name / '
+           'next / context defect, model-confirmed before and after planting',
+    'All 23 source pairs, the six reserved names as application resource / route resource / URL binding, middleware functions '
+    'without a leading next in each phase, next in endpoint/render, required context outside the render phase; each planted into '
+    'valid random hosts (160 hosts per pair in the quick tier), with unplanted controls that must be accepted and serve a request.',
+    'DESIGN.md section 3, C04')
+
+
 def main():
     present = sorted(p for p in CHECKS if os.path.exists(os.path.join(HERE, 'vt', 'checks', p + '.py')))
     checks = []
